@@ -116,8 +116,17 @@ def o3(tier):
     return r
 
 
+def o4(tier):
+    """what a restart re-loads is what belongs to the group: the rollback never files another group's snapshots under this group"""
+    from props import C09
+    r = C09.sqlite_columns(tier)
+    r.oid = 'O4'
+    r.title = 'SQLite (shared with C09-O2): the snapshots a rollback puts back are this group\'s own, unchanged -- after a restart the manager re-loads exactly the snapshots the group had'
+    return r
+
+
 def run(tier, seed, only=None):
-    obs = [('O1', o1), ('O2', o2), ('O3', o3)]
+    obs = [('O1', o1), ('O2', o2), ('O3', o3), ('O4', o4)]
     out = []
     for k, f in obs:
         if only and k not in only:
